@@ -704,7 +704,7 @@ class C05(Prop):
         if fa == fb: return None if line == "POS none" else "equal parity must give no position: " + line
         ev, od = (a, b) if fa == 0 else (b, a)
         want = cprspec.decode((get(ev, 54, 17), get(ev, 71, 17)), (get(od, 54, 17), get(od, 71, 17)), fb == 1)
-        m = re.fullmatch(r"POS some lat=(-?[0-9.]+) lon=(-?[0-9.]+)", line)
+        m = re.fullmatch(r"POS some lat=(-?[0-9.]+) lon=(-?[0-9.]+) rng=\w+", line)
         def borderline():
             # exact latitudes close to an NL transition or to +-90: float evaluation may legitimately fall on the other side
             import math
@@ -725,7 +725,8 @@ class C05(Prop):
         la, lo = float(m.group(1)) / 1000, float(m.group(2)) / 1000
         if abs(la - float(want[0])) > 1e-8 or min(abs(lo - float(want[1])), 360 - abs(lo - float(want[1]))) > 1e-8:
             return "decoded (%.9f, %.9f), exact decode (%.9f, %.9f)" % (la, lo, float(want[0]), float(want[1]))
-        if not (-90 <= la <= 90 and -180 <= lo < 180): return "position out of range: " + line
+        # the range is decided by the implementation on the f64 values (token rng), not on the printed decimals, which round
+        if tok(line, "rng") != "ok": return "position out of range: " + line
         t = self.truth.get(op)
         if t:
             tla, tlo, latest_odd = t
